@@ -135,6 +135,31 @@ theorem cosmos_inv_preserved (p : Cosmos.P) (s : Cosmos.S) (t : Int) (hi : Cosmo
     Cosmos.Inv (Cosmos.elapse p t s).1 ∧ ∀ r, Cosmos.use p s = .ok r → Cosmos.Inv r.1 :=
   Cosmos.inv_preserved p s t hi hc hpos
 
+/-- the bound that `cosmos_inv_preserved` needs: every reducer that writes the shared orb stack keeps
+    `stack ≤ maximum_stack` (with `0 ≤ maximum_stack`), so `periodic_interval - orbs * decrement` stays positive
+    whenever `periodic_interval - maximum_stack * decrement` is (shipped: 600 ms − 10·30 ms) -/
+theorem orb_stack_bounded (po : CosmicOrb.P) (pb : CosmicBurst.P) (ps : CosmicShower.P) (pc : Cosmos.P)
+    (so : CosmicOrb.S) (sb : CosmicBurst.S) (ss : CosmicShower.S) (sc : Cosmos.S) :
+    (so.orb.stack ≤ so.orb.maximumStack ∧ 0 ≤ so.orb.maximumStack →
+      (CosmicOrb.increase po so).1.orb.stack ≤ (CosmicOrb.increase po so).1.orb.maximumStack ∧
+      (CosmicOrb.maximize po so).1.orb.stack ≤ (CosmicOrb.maximize po so).1.orb.maximumStack ∧
+      (CosmicOrb.increase po so).1.orb.maximumStack = so.orb.maximumStack ∧
+      (CosmicOrb.maximize po so).1.orb.maximumStack = so.orb.maximumStack) ∧
+    (sb.orb.stack ≤ sb.orb.maximumStack ∧ 0 ≤ sb.orb.maximumStack →
+      (CosmicBurst.trigger pb sb).1.orb.stack ≤ sb.orb.maximumStack ∧
+      (CosmicBurst.trigger pb sb).1.orb.maximumStack = sb.orb.maximumStack) ∧
+    (ss.orb.stack ≤ ss.orb.maximumStack ∧ 0 ≤ ss.orb.maximumStack → ∀ r, CosmicShower.use ps ss = .ok r →
+      r.1.orb.stack ≤ ss.orb.maximumStack ∧ r.1.orb.maximumStack = ss.orb.maximumStack) ∧
+    (sc.orb.stack ≤ sc.orb.maximumStack ∧ 0 ≤ sc.orb.maximumStack → ∀ r, Cosmos.use pc sc = .ok r →
+      r.1.orb.stack ≤ sc.orb.maximumStack ∧ r.1.orb.maximumStack = sc.orb.maximumStack) :=
+  Wind.orb_stack_bounded po pb ps pc so sb ss sc
+theorem cosmos_interval_positive (p : Cosmos.P) (s : Cosmos.S) (hb : s.orb.stack ≤ s.orb.maximumStack)
+    (hd : 0 ≤ p.periodicIntervalDecrementPerOrb)
+    (hp : 0 < p.periodicInterval - s.orb.maximumStack * p.periodicIntervalDecrementPerOrb) :
+    0 < p.periodicInterval - s.orb.stack * p.periodicIntervalDecrementPerOrb := by
+  have := Int.mul_le_mul_of_nonneg_right hb hd
+  omega
+
 /-! ### HowlingGaleComponent (`Consumable` + `Periodic`, rows selected by the stacks consumed) -/
 theorem howlingGale_elapse_defined (p : HowlingGale.P) (s : HowlingGale.S) (t : Int) (hi : HowlingGale.Inv p s) :
     ∃ r, HowlingGale.elapse p t s = .ok r := HowlingGale.elapse_defined p s t hi
